@@ -2206,7 +2206,7 @@ sse_rule_swapwl_ssse3 (OrcCompiler *p, void *user, OrcInstruction *insn)
   if (tmp != ORC_REG_INVALID) {
     orc_sse_emit_pshufb (p, tmp, dest);
   } else {
-    sse_rule_swapl (p, user, insn);
+    sse_rule_swapwl (p, user, insn);
   }
 }
 
